@@ -90,6 +90,11 @@ pub enum Case {
         max_windows: usize,
         base: u64,
         evs: Vec<Ev>,
+        /// a sub-millisecond part of the duration, in microseconds (0 = a whole number of ms).
+        /// Instants are whole milliseconds, so what the aligned intervals of such a duration are
+        /// is not stated: only "the event is in exactly one window, whose span contains its
+        /// timestamp" is judged
+        frac_us: u32,
     },
     /// `WindowedStream` in tumbling mode (batch)
     Ws {
@@ -139,9 +144,9 @@ impl Case {
                     "op": match o { TwOp::Add => "add_event", TwOp::Record => "record" },
                     "ts": e.ts, "v": e.pay.to_json()})).collect::<Vec<_>>(),
             }),
-            Case::Wm { d, cap, max_windows, base, evs } => json!({
+            Case::Wm { d, cap, max_windows, base, evs, frac_us } => json!({
                 "kind": "window_manager", "window_type": "tumbling",
-                "duration_ms": d, "cap": cap, "max_windows": max_windows, "base": base,
+                "duration_ms": d, "duration_extra_us": frac_us, "cap": cap, "max_windows": max_windows, "base": base,
                 "events": evs.iter().map(ev_json).collect::<Vec<_>>(),
             }),
             Case::Ws { d, cap, base, via_datastream, evs } => json!({
@@ -192,6 +197,7 @@ impl Case {
                 max_windows: j.get("max_windows")?.as_u64()? as usize,
                 base,
                 evs: j.get("events")?.as_array()?.iter().map(ev_from).collect::<Option<Vec<_>>>()?,
+                frac_us: j.get("duration_extra_us").and_then(|v| v.as_u64()).unwrap_or(0) as u32,
             }),
             "windowed_stream" => Some(Case::Ws {
                 d,
@@ -368,10 +374,20 @@ const INTS: [i64; 9] = [0, 1, -1, 2, 5, -5, 12, 1000, -1000];
 const STRS: [&str; 4] = ["x", "", "12", "NaN"];
 
 /// payload style of a whole case: 0 = mixed, 1 = all numeric, 2 = mostly missing/non-numeric,
-/// 3 = numeric with readings that are not finite numbers (NaN, +-infinity)
+/// 3 = numeric with readings that are not finite numbers (NaN, +-infinity), 4 = integers at the ends of i64
 pub fn rand_pay(rng: &mut Rng, style: usize) -> Pay {
     let r = rng.below(100);
     match style {
+        // integers whose exact total leaves i64 (the fold is over f64 readings)
+        4 => {
+            if r < 70 {
+                Pay::Int(*rng.pick(&[i64::MAX, i64::MAX - 1, i64::MIN, 4_000_000_000_000_000_000, -4_000_000_000_000_000_000, 1 << 62]))
+            } else if r < 90 {
+                Pay::Int(*rng.pick(&INTS))
+            } else {
+                Pay::Missing
+            }
+        }
         3 => {
             if r < 25 {
                 Pay::Num(f64::NAN)
@@ -481,7 +497,7 @@ pub fn rand_events(rng: &mut Rng, d: u64) -> Vec<Ev> {
     // one case in 8 is long (more events than a small-slice code path of a sort or a container
     // would see), so that several windows each hold more events than the cap
     let n = if rng.chance(1, 8) { 21 + rng.below(44) } else { 1 + rng.below(12) };
-    let style = *rng.pick(&[0usize, 0, 0, 0, 1, 1, 2, 2, 3]);
+    let style = *rng.pick(&[0usize, 0, 0, 0, 1, 1, 2, 2, 3, 4]);
     rand_timestamps(rng, d, n)
         .into_iter()
         .map(|ts| Ev { ts, pay: rand_pay(rng, style) })
@@ -540,6 +556,7 @@ pub fn rand_event_time_case(rng: &mut Rng, kind: usize) -> Case {
             max_windows: *rng.pick(&[1usize, 2, 3, 100, 100]),
             base,
             evs,
+            frac_us: if rng.chance(1, 10) { *rng.pick(&[500u32, 1, 999, 250]) } else { 0 },
         },
         _ => Case::Ws {
             d,
@@ -559,7 +576,7 @@ pub fn rand_node_case(rng: &mut Rng) -> Case {
     let base = if rng.chance(17, 20) { EPOCH + rng.below(30) as u64 } else { 0 };
     let clock0 = d + 2 + rng.below(11) as u64;
     let n = 1 + rng.below(12);
-    let style = *rng.pick(&[0usize, 0, 0, 1, 1, 2, 2, 3]);
+    let style = *rng.pick(&[0usize, 0, 0, 1, 1, 2, 2, 3, 4]);
     let mut now = clock0;
     let mut ops = Vec::new();
     for _ in 0..n {
